@@ -50,6 +50,8 @@ def _serve():
                     res = baton.run_api_op(req["op"])
                 elif req["kind"] == "walk":
                     res = c12.run_walk_op(req["op"])
+                elif req["kind"] == "pipeline":
+                    res = c12.run_pipeline_op(req["op"])
                 else:
                     cfg = req["cfg"]
                     res = c12.public_outcome(c12.exec_op(c12.new_object(cfg), cfg, req["op"]))
